@@ -43,6 +43,17 @@ type Quant struct {
 	Body   Expr
 }
 
+// Sum is sum(i in lo..hi, body): the mathematical sum over the half-open range.
+type Sum struct {
+	Var    string
+	Lo, Hi Expr
+	Body   Expr
+}
+
+func (e *Sum) String() string {
+	return "sum(" + e.Var + " in " + e.Lo.String() + ".." + e.Hi.String() + ", " + e.Body.String() + ")"
+}
+
 func (e *Ident) String() string   { return e.Name }
 func (e *IntLit) String() string  { return e.Val.String() }
 func (e *StrLit) String() string  { return fmt.Sprintf("%q", e.Val) }
@@ -436,6 +447,18 @@ func (ps *parser) primary() Expr {
 		}
 		if ps.isOp("(") {
 			ps.next()
+			if t.s == "sum" && ps.peek().kind == "id" && ps.toks[ps.p+1].kind == "id" && ps.toks[ps.p+1].s == "in" {
+				// sum(i in lo..hi, body)
+				v := ps.next().s
+				ps.next() // in
+				lo := ps.additive()
+				ps.expect("..")
+				hi := ps.additive()
+				ps.expect(",")
+				body := ps.expr()
+				ps.expect(")")
+				return &Sum{Var: v, Lo: lo, Hi: hi, Body: body}
+			}
 			return &Call{Fun: t.s, Args: ps.args()}
 		}
 		return &Ident{t.s}
